@@ -94,6 +94,10 @@ func termNilness(t *Term) int8 {
 		return -1
 	case "addr", "addrvar", "struct", "list", "maplit", "closure", "fn", "mval":
 		return -1
+	case "global":
+		if nonNilGlobals[t.Name] {
+			return -1
+		}
 	case "call":
 		switch t.Name {
 		case "fmt.Errorf", "errors.New", "new", "make", "errors.Join":
@@ -106,6 +110,10 @@ func termNilness(t *Term) int8 {
 	}
 	return 0
 }
+
+// nonNilGlobals: package-level variables initialised with a constructor call
+// (errors.New, fmt.Errorf, &T{}, make, composite literal). Filled by the builder.
+var nonNilGlobals = map[string]bool{}
 
 type explorer struct {
 	pg *PG
